@@ -137,3 +137,21 @@ def check(ctx):
             ctx.note("%s: argument is only compared with constants %s and used as an index, so the %d representatives "
                      "cover every non-enumerator value" % (fname, sorted(consts), nrep))
     ctx.floor("C20.R1", sum(1 for o in ctx.obls if o["rule"] == "C20.R1"), 15)
+
+
+RT = "rtrlib/rtr/rtr.c"
+MG = "rtrlib/rtr_mgr.c"
+WITNESSES = [
+    {"id": "C20.w1-state-name-missing", "rule": "C20.R1", "file": RT,
+     "old": "\t\t\t\t\t  [RTR_FAST_RECONNECT] = \"RTR_FAST_RECONNECT\",\n", "new": ""},
+    {"id": "C20.w2-state-names-swapped", "rule": "C20.R1", "file": RT,
+     "old": "[RTR_RESET] = \"RTR_RESET\",\n\t\t\t\t\t  [RTR_SYNC] = \"RTR_SYNC\",", "new": "[RTR_RESET] = \"RTR_SYNC\",\n\t\t\t\t\t  [RTR_SYNC] = \"RTR_RESET\","},
+    {"id": "C20.w3-status-name-misspelt", "rule": "C20.R1", "file": MG,
+     "old": "[RTR_MGR_ERROR] = \"RTR_MGR_ERROR\",", "new": "[RTR_MGR_ERROR] = \"RTR_MGR_ERR\","},
+    {"id": "C20.w4-state-bound-off-by-one", "rule": "C20.R2", "file": RT,
+     "old": "\tif (state >= sizeof(socket_str_states) / sizeof(socket_str_states[0]))", "new": "\tif (state > sizeof(socket_str_states) / sizeof(socket_str_states[0]))"},
+    {"id": "C20.w5-status-bound-signed", "rule": "C20.R2", "file": MG,
+     "old": "\tif (status >= sizeof(mgr_str_status) / sizeof(mgr_str_status[0]))", "new": "\tif ((int)status >= (int)(sizeof(mgr_str_status) / sizeof(mgr_str_status[0])))"},
+    {"id": "C20.w6-status-no-bound", "rule": "C20.R2", "file": MG,
+     "old": "\tif (status >= sizeof(mgr_str_status) / sizeof(mgr_str_status[0]))\n\t\treturn NULL;\n", "new": ""},
+]
